@@ -22,3 +22,5 @@
 ;; spec cancel_of (Iface) Int
 (declare-fun ctx_parent (Iface) Iface)
 (declare-fun cancel_of (Iface) Int)
+;; ghost ndelivered Int
+;; ghost delivered (Array Int Iface)
